@@ -30,7 +30,13 @@ def history (j : Json) : R Json := do
     | some w => do
       let w ← w.getStr?
       pure (calls.map fun c => jstr (expand c.env w))
+  -- RunCmd histories: the command's stdout is shown exactly in the calls made in verbose mode (sh.Run at that moment)
+  let verb : List (Option Bool) ← (← (← fld j "calls").getArr?).toList.mapM fun c =>
+    pure ((fldBool c "verbose").toOption)
+  let shown : List Json := verb.filterMap fun v => v.map jbool
+  let isRun := verb.all Option.isSome && (fldOpt j "out").isNone
   pure (obj ([("argvs", Json.arr (r.2.map strArr).toArray), ("callerUnchanged", jbool unchanged)] ++
+    (if isRun && (fldBool j "run").toOption == some true then [("shown", Json.arr shown.toArray)] else []) ++
     (if cmds.isEmpty then [] else [("commands", Json.arr cmds.toArray)])))
 
 def direct (j : Json) : R Json := do
